@@ -373,7 +373,9 @@ class C15(Prop):
                                 out.append(('zero-noise', 'events %d,%d: amplitudes consistent with ratio %r at error level %g, estimated scale %r' %
                                             (i, j, k, e, full['scale'][0][i][j]), None))
         # zero filtering: exactly the tuples of non-zero probability, each with its own value
-        if not case['return_zero'] and xt != float('inf') and not any(v != v or v == float('inf') for v in full['ln']):
+        if not case['return_zero'] and (xt == float('inf') or any(v != v or v == float('inf') for v in full['ln'])):
+            pass            # errors of exactly zero: the ratio density is numerically meaningless, nothing to compare
+        elif not case['return_zero']:
             keep = [ti for ti in range(nt) if full['ln'][ti] != NEG_INF]
             got = impl['idx']
             if -1 in got:
